@@ -5,6 +5,7 @@ import Driver.OpsIeee
 import Driver.OpsCodec
 import Driver.OpsTables
 import Driver.OpsFrame
+import Driver.OpsFind
 /-
   bvp_lean — line-protocol driver: one operation per input line, one canonical
   result line per operation, computed by the *model*.  Each model area has its own
@@ -21,6 +22,7 @@ structure St where
   codec : CodecSt := {}
   tbl : TblSt := {}
   frame : FrameSt := {}
+  find : FindSt := {}
 
 def step (st : St) (line : String) : St × String :=
   let toks := (line.trimAscii.toString.splitOn " ").filter (· ≠ "")
@@ -42,6 +44,9 @@ def step (st : St) (line : String) : St × String :=
   | none =>
   match stepScale st.scale toks with
   | some (s, o) => ({ st with scale := s }, o)
+  | none =>
+  match stepFind st.tm st.codec st.find toks with
+  | some (s, o) => ({ st with find := s }, o)
   | none => (st, "bad-op")
 
 partial def loop (h : IO.FS.Stream) (out : IO.FS.Stream) (st : St) : IO Unit := do
